@@ -345,3 +345,35 @@ def foreign_crate_types(crate_name):
             for name, d in one.items():
                 out.setdefault(name, []).append((stem,) + d)
     return out
+
+
+_fn_generics = {}
+
+
+def fn_generics(name):
+    """generic parameter list of the free function / method `name` from the repository's
+    sources (MIR headers omit it): [('const', 'SIZE'), ('type', 'T'), ...]"""
+    if name in _fn_generics:
+        return _fn_generics[name]
+    out = []
+    pat = re.compile(r"\bfn\s+%s\s*<([^>]*(?:<[^>]*>[^>]*)*)>\s*\(" % re.escape(name))
+    for root in ("crates", "bin"):
+        for dp, _, files in os.walk(os.path.join(REPO, root)):
+            if "/target" in dp:
+                continue
+            for f in files:
+                if f.endswith(".rs"):
+                    m = pat.search(open(os.path.join(dp, f)).read())
+                    if m:
+                        for g in split_top(m.group(1)):
+                            g = g.strip()
+                            if g.startswith("'"):
+                                continue
+                            if g.startswith("const "):
+                                out.append(("const", g[6:].split(":")[0].strip()))
+                            else:
+                                out.append(("type", g.split(":")[0].strip()))
+                        _fn_generics[name] = out
+                        return out
+    _fn_generics[name] = out
+    return out
